@@ -44,7 +44,7 @@ WackFn(ln) == [k \in { IdOf(ln.wack[i].pkt) : i \in DOMAIN ln.wack } |->
 
 GhostStep(T, a, ln) ==
     LET G == GhostOf(T)  w == WackFn(ln)  sent == SetOf(ln.sent) IN
-    IF ln.res # "ok" \/ a.a = "Block" THEN G
+    IF ln.res # "ok" \/ a.a \in {"Block", "XImport"} THEN G
     ELSE IF a.a = "Transfer" THEN [G EXCEPT !.pk = @ \cup sent]
     ELSE LET id == Id(a.pkt) IN
       CASE a.a = "Recv" ->
@@ -100,6 +100,10 @@ Viol(T, a, ln, post) ==
            IF a.a = "Recv" /\ ln.res = "ok" /\ Id(a.pkt) \in DOMAIN post.recv /\ post.recv[Id(a.pkt)] = "err"
               /\ Bank(post) # Bank(T) THEN {1} ELSE {} }
   \cup { <<"C43", "rejected-moves-nothing">> : x \in IF ln.res # "ok" /\ Bank(post) # Bank(T) THEN {1} ELSE {} }
+  \* ---- C44 (diagnostic, judged by the packet family's property): export/import is the identity ----
+  \cup { <<"C44", "export-import-identity">> : x \in
+           IF a.a = "XImport" /\ ~(ln.res = "ok" /\ Bank(post) = Bank(T) /\ post.ns = T.ns) THEN {1} ELSE {} }
+  \cup { <<"C44", "re-export-equals-export">> : x \in IF a.a = "XImport" /\ ln.res = "ok" /\ ln.xi # "same" THEN {1} ELSE {} }
   \* ---- full conformance (diagnostic only) -------------------------------------------------
   \cup { <<"CONF", a.a \o ":" \o E.res \o "/" \o ln.res>> : x \in
            IF (E.res = "ok") = (ln.res = "ok") /\ E.S = post THEN {} ELSE {1} }
